@@ -5,6 +5,8 @@
 use rusqlite::ffi::{SQLITE_CONSTRAINT_FOREIGNKEY, SQLITE_CONSTRAINT_PRIMARYKEY};
 use rusqlite::{Connection, Error as SqliteError, ErrorCode, Params};
 
+use crate::verif::crash_point;
+
 /// Packs the errors than can raise when interacting with the underlying database.
 #[derive(Debug)]
 pub enum Error {
@@ -39,8 +41,12 @@ impl<T: DatabaseConnection> DatabaseManager for T {
 
     /// Generic method to store data into the database.
     fn store_data<P: Params>(&self, query: &str, params: P) -> Result<(), Error> {
+        crash_point("store", false);
         match self.get_connection().execute(query, params) {
-            Ok(_) => Ok(()),
+            Ok(_) => {
+                crash_point("store", true);
+                Ok(())
+            }
             Err(e) => match e {
                 SqliteError::SqliteFailure(ie, _) => match ie.code {
                     ErrorCode::ConstraintViolation => match ie.extended_code {
@@ -57,9 +63,13 @@ impl<T: DatabaseConnection> DatabaseManager for T {
 
     /// Generic method to remove data from the database.
     fn remove_data<P: Params>(&self, query: &str, params: P) -> Result<(), Error> {
+        crash_point("remove_or_update", false);
         match self.get_connection().execute(query, params).unwrap() {
             0 => Err(Error::NotFound),
-            _ => Ok(()),
+            _ => {
+                crash_point("remove_or_update", true);
+                Ok(())
+            }
         }
     }
 
